@@ -601,15 +601,16 @@ POSITION_FIELDS = {"line", "column", "end_line", "end_column"}
 
 
 def eq_fields(c: ClassInfo):
+    """Attributes of self that __eq__ reads (compared directly or through frozenset()/zip()/helpers)."""
     f = c.methods.get("__eq__")
     if f is None:
         return None
     out = set()
     for n in ast.walk(f.node):
-        if isinstance(n, ast.Compare) and len(n.ops) == 1 and isinstance(n.left, ast.Attribute) and isinstance(n.left.value, ast.Name) and n.left.value.id == "self":
-            r = n.comparators[0]
-            if isinstance(r, ast.Attribute) and r.attr == n.left.attr:
-                out.add(n.left.attr)
+        if isinstance(n, ast.Attribute) and isinstance(n.value, ast.Name) and n.value.id == "self" and not n.attr.startswith("__"):
+            if c.lookup_method(n.attr) is not None and not c.lookup_method(n.attr).is_property:
+                continue  # a method call such as self.zip(other), not a compared field
+            out.add(n.attr)
     return out
 
 
